@@ -87,7 +87,19 @@ class C01(Prop):
             sel = keys if (len(keys) == 1 or rng.random() < 0.5) else sorted(rng.sample(keys, rng.randint(1, len(keys) - 1)))
             ev_sel = {'types': {k: ev['types'][k] for k in sel}, 'loc': None, 'weights': None}
             yield {'kind': 'frontend', 'event': ev_sel, 'event_full': ev, 'options': sel, 'mts': [], 'marginalise': True, 'return_zero': True,
-                   'probe': 'none', 'probe_seed': rng.randrange(1 << 30), 'dc': rng.random() < 0.4, 'samples': rng.choice([40, 120])}
+                   'probe': 'none', 'probe_seed': rng.randrange(1 << 30), 'dc': rng.random() < 0.4, 'samples': rng.choice([40, 120]),
+                   'parallel': False}
+        # the same through the worker pool of the front end (forward tasks built in the workers): manual polarities with mis-pick
+        # probabilities, and a second type
+        for i in range(2 if tier == 'quick' else 8):
+            ev = dg.gen_event(rng, want_pol='pol', want_ar=(i % 2 == 1), want_loc=False)
+            for key, rows in ev['types'].items():
+                if 'polarity' in key.lower():
+                    for r in rows:
+                        r['ipp'] = rng.choice([0.05, 0.2, 0.4])
+                        r['error'] = [rng.choice([0.3, 0.6])]
+            yield {'kind': 'frontend', 'event': ev, 'options': sorted(ev['types']), 'mts': [], 'marginalise': True, 'return_zero': True,
+                   'probe': 'none', 'probe_seed': rng.randrange(1 << 30), 'dc': False, 'samples': 60, 'parallel': True}
 
     # ------------------------------------------------------------------ implementation
     def _task(self, ev, mts, marginalise, return_zero):
@@ -173,7 +185,7 @@ class C01(Prop):
             os.chdir(tmp)
             np.random.seed(case['probe_seed'] % (2 ** 32))
             with contextlib.redirect_stdout(sink), contextlib.redirect_stderr(sink):
-                I = inv.Inversion(data, algorithm='iterate', parallel=False, max_samples=case['samples'], number_samples=case['samples'] // 2,
+                I = inv.Inversion(data, algorithm='iterate', parallel=bool(case.get('parallel')), n=2, max_samples=case['samples'], number_samples=case['samples'] // 2,
                                   phy_mem=1, convert=False, dc=case['dc'], inversion_options=list(case.get('options', sorted(case['event']['types']))))
                 I.forward()
                 res, _txt = I.algorithm.output(normalise=False, convert=False)
@@ -403,7 +415,7 @@ class C01(Prop):
     def branch(self, case, impl):
         ev = case['event']
         if case['kind'] == 'frontend':
-            return 'frontend/%s/%s' % ('dc' if case['dc'] else 'mt', 'kept' if isinstance(impl, dict) and impl.get('frontend', {}).get('kept') else 'none-kept')
+            return 'frontend%s/%s/%s' % ('-pool' if case.get('parallel') else '', 'dc' if case['dc'] else 'mt', 'kept' if isinstance(impl, dict) and impl.get('frontend', {}).get('kept') else 'none-kept')
         kinds = sorted({'pp' if ('prob' in k.lower()) else 'pol' if 'polarity' in k.lower() else 'ar' for k in ev['types']})
         nloc = len(ev['loc']['samples']) if ev['loc'] else 0
         w = 'w' if ev['weights'] is not None else 'nw'
